@@ -105,7 +105,7 @@ def sanitizer_report(err):
 class Job:
     """one execution of the harness"""
 
-    def __init__(self, prog, variant, sched, seed=1, graph=False, crit=False, dump=0, cwd=None, timeout=600, args=(), stack_kb=0):
+    def __init__(self, prog, variant, sched, seed=1, graph=False, crit=False, dump=0, cwd=None, timeout=300, args=(), stack_kb=0):
         self.stack_kb = stack_kb
         self.prog, self.variant, self.sched, self.seed = prog, variant, sched, seed
         self.graph, self.crit, self.dump, self.cwd, self.timeout, self.args = graph, crit, dump, cwd, timeout, tuple(args)
@@ -117,7 +117,7 @@ class Job:
 # stratified schedules of the quick tier (harness/C01/gch.c, schedule `uNcK`): a collection at EVERY safepoint reached while a
 # function of the program under test runs (the first K of them; afterwards one in 4) and at one in N of the safepoints in
 # boot.janet's own code
-QS_SCEN, QS_GEN_BEH, QS_GEN_GRAPH = "u8c600", "u16c400", "u32c300"
+QS_SCEN, QS_GEN_BEH, QS_GEN_GRAPH = "u8c600", "u16c400", "u32c200"
 
 KEEPALIVE = []       # path of the build directory's .lastuse stamp (vlib/build.py purges build directories of OTHER tree hashes
 
@@ -511,7 +511,7 @@ def _run(ctx, quick, broken, exes, driver, tmp, gen_info, only_replay):
             # CPU budget of the quick tier (measured by the harness, see cpu_seconds in the evidence): about three quarters of a
             # small program's ~8000 safepoints lie in boot.janet's compiler; the stratified schedules collect at every safepoint
             # of the program's own code up to a cap and sample the rest
-            plan = [("asan", "never"), ("asan_debugstack", QS_GEN_BEH)] + ([("asan", "p4")] if i % 2 == 0 else [])
+            plan = [("asan", "never"), ("asan_debugstack", QS_GEN_BEH)] + ([("asan", "p4")] if i % 3 == 0 else [])
             gs = QS_GEN_GRAPH
         elif small:
             # every-safepoint runs: asan_debugstack (ASan + stack relocation at every frame push) and plain asan
